@@ -111,6 +111,27 @@ def gen_function_location(trig):
             and first is not None and ast.unparse(first) == 'lines, start = inspect.getsourcelines(frame)'):
         raise Untranslatable('FunctionLocation.at_location: the unnamed-function block no longer starts by reading '
                              'the source lines after the path test')
+    # ... and on a file WITH source: the rest of the block, translated
+    blk_body = no_logging(blk.body)
+    if not (len(blk_body) == 4 and ast.unparse(blk_body[1]) == 'end = start + len(lines)'
+            and isinstance(blk_body[2], ast.If) and not blk_body[2].orelse
+            and [ast.unparse(x) for x in no_logging(blk_body[2].body)] == ['self.__function_name = function_name',
+                                                                            'return True']
+            and ast.unparse(blk_body[3]) == 'return False'):
+        raise Untranslatable('FunctionLocation.at_location: the unnamed-function block changed shape')
+    trn = Translator(subst={'self.path': 'path'}, names={'end': 'end_'})
+    out += ('\n/-- `FunctionLocation.at_location` of a location without a function name: `src` = what\n'
+            '    `inspect.getsourcelines(frame)` gives for the frame of the event — (first line, number of lines) of the\n'
+            '    source block of its code object, `none` = it raises.  `some true` also stores the function name of\n'
+            '    the event in the location (it is a named location from then on: `Trigger.Loc.settle`). -/\n'
+            'def funcAtLocationNameless (path : String) (src : Option (Int × Int)) (event file : String) (line : Int) '
+            '(function_name : String) : Option Bool :=\n'
+            f'  if {trn.expr(pre[0].test)} then some false else\n'
+            '  match src with\n'
+            '  | none => none\n'
+            '  | some (start, n_lines) =>\n'
+            '    let end_ := start + n_lines\n'
+            f'    some {trn.expr(blk_body[2].test)}\n')
     out += ('\n/-- `FunctionLocation.at_location` of a location without a function name, for a frame whose source is not\n'
             '    available (`inspect.getsourcelines` raises): `none` = raises. -/\n'
             'def funcAtLocationNoSource (path : String) (event file : String) (line : Int) (function_name : String) : '
@@ -164,14 +185,20 @@ def gen_callback_context(cb):
         loop = no_logging(t.body)
     if [ast.unparse(x) for x in loop] != ['callback.process(ctx, event, frame, arg)']:
         raise Untranslatable('CallbackContext.process no longer calls callback.process(ctx, event, frame, arg)')
-    on_fail = ('contextProcess fails rest   -- caught per callback: the others still run' if isolated
-               else '([], true)   -- the exception leaves process: the remaining callbacks are not run')
-    out.append('/-- `CallbackContext.process`: `fails cb` = `cb.process(..)` raises.  Result: the callbacks whose `process` was\n'
-               '    called after the first one of the list (in order), and whether an exception leaves `process`. -/\n'
-               'def contextProcess {β : Type} (fails : β → Bool) : List β → List β × Bool\n'
+    caught = ast.unparse(t.handlers[0].type) if isolated else None
+    go, stop = 'contextProcess fails rest', '([], true)'
+    on_exc = go if caught in ('Exception', 'BaseException') else stop
+    on_base = go if caught == 'BaseException' else stop
+    out.append('/-- `CallbackContext.process`: `fails cb` = the class of the exception `cb.process(..)` raises (`none` = it\n'
+               '    does not raise).  Result: the callbacks whose `process` was called (in order), and whether an exception\n'
+               '    leaves `process` (the remaining callbacks are then not run). -/\n'
+               'def contextProcess {β : Type} (fails : β → Option Py.Exn) : List β → List β × Bool\n'
                '  | [] => ([], false)\n'
                '  | callback :: rest =>\n'
-               '    let r := if fails callback then ' + on_fail.split('   --')[0] + ' else contextProcess fails rest\n'
+               '    let r := match fails callback with\n'
+               '      | none => contextProcess fails rest\n'
+               f'      | some Py.Exn.exc => {on_exc}\n'
+               f'      | some Py.Exn.base => {on_base}\n'
                '    (callback :: r.1, r.2)\n')
     return out
 
@@ -454,6 +481,16 @@ def gen_convert_response(g, trig):
         raise Untranslatable('convert_response is no longer `all_triggers = {}; for r in response: ..; '
                              'return list(all_triggers.values())`')
     loop = no_logging(body[1].body)
+    # optional: the build of one tracepoint in `try: trigger = build_trigger(..) except Exception: <logging>; continue`
+    # — a tracepoint whose build raises is skipped like one that cannot be interpreted (`none` in `built`)
+    if loop and isinstance(loop[0], ast.Try):
+        t = loop[0]
+        if not (len(t.handlers) == 1 and t.handlers[0].type is not None
+                and ast.unparse(t.handlers[0].type) in ('Exception', 'BaseException')
+                and [type(x) for x in no_logging(t.handlers[0].body)] == [ast.Continue]
+                and not t.orelse and not t.finalbody and len(no_logging(t.body)) == 1):
+            raise Untranslatable('convert_response: the per-tracepoint try is not `except Exception: <logging>; continue`')
+        loop = no_logging(t.body) + loop[1:]
     if not (len(loop) >= 3 and isinstance(loop[0], ast.Assign) and ast.unparse(loop[0].targets[0]) == 'trigger'
             and isinstance(loop[0].value, ast.Call) and ast.unparse(loop[0].value.func) == 'build_trigger'
             and [ast.unparse(a) for a in loop[0].value.args[:3]] == ['r.ID', 'r.path', 'r.line_number']):
